@@ -252,6 +252,9 @@ func (e *Engine) loopEntry(st *State, fr *Frame, li *loopInfo, pred *ssa.BasicBl
 	}
 	// evaluate phis for the entry edge, assert the invariant
 	e.evalPhis(st, fr, li.header, pred)
+	for _, c := range ls.Hints {
+		st.Assume(e.evalBool(c.E, e.invEnv(st, fr)))
+	}
 	e.assertInvariant(st, fr, li, ls, "inv-entry")
 	// havoc: header phis, cells and heaps written in the loop
 	for _, in := range li.header.Instrs {
@@ -1119,7 +1122,7 @@ func (e *Engine) indexAddr(st *State, fr *Frame, sv Val, iv Val, rt types.Type, 
 	et := resolve(elemOfSlice(sv.T), fr.env)
 	e.obligationPanic(st, "bounds", pos, And(Le(IntLit(0), idx), Lt(idx, sv.L[2])))
 	n := len(e.lay.Leaves(et))
-	return Val{T: rt, L: []Term{IntLit(-1)}, P: &Loc{Kind: LocElem, Base: sv.L[0], Idx: Add(sv.L[1], idx), ElemT: et, Off: 0, N: n, T: et}}
+	return Val{T: rt, L: []Term{IntLit(-1)}, P: &Loc{Kind: LocElem, Base: sv.L[0], Idx: Add(sv.L[1], e.idxWrap(idx)), ElemT: et, Off: 0, N: n, T: et}}
 }
 
 func (e *Engine) bvToInt(t Term, signed bool) Term {
